@@ -251,6 +251,12 @@ class _Run:
         sc = self.sc
         fk = sc['fault']['kind']
         lua = b'' if fk == 'uncompressible' else None
+        if fk == 'odd-code':
+            # valid Lua whose .p8 text a later reading would misread (a line of a long string / comment that looks like
+            # a section header or an include directive): the WRITE succeeds; a writer that fails on it after having
+            # replaced the destination shows here
+            lua = [b'lvl=[[\n__gfx__\n]]\nx=1\n', b'--[[\n#include no_such_file.lua\n]]\nx=1\n',
+                   b'x=[[\n__lua__\n]]\n'][sc['fault'].get('which', 0)]
         if version is None:
             version = sc['fault']['v'] if fk == 'version' else 33
         return _mk_game(sc.get('seed', 1), sc['size'], label=(sc['fmt'] == 'p8'), lua=lua, version=version)
@@ -547,7 +553,7 @@ def compare(case, obs, answers):
     if fk in ('writer-raises', 'no-reparse', 'section-raises', 'label-unreadable', 'version', 'no-encoder') and ref['raised'] is None:
         if not (fk == 'no-reparse' and case['fmt'] == 'png'):        # the .p8.png writer has no sanity re-parse
             return 'the failure source %s did not make the write fail' % fk
-    if fk in ('inject', 'none') and ref['raised'] is not None:
+    if fk in ('inject', 'none', 'odd-code') and ref['raised'] is not None:
         return 'the reference run failed: %s' % ref['raised']
     return None
 
@@ -569,8 +575,12 @@ def _named_failure(case):
     return fk in _NAMED and not (fk == 'no-reparse' and case['fmt'] == 'png')
 
 
-def _mon_trace(case, trace):
-    if _named_failure(case):
+def _mon_trace(case, trace, raised=None):
+    # a call that RAISED did not produce the cart, whatever it had got done before (a "verification" step that fails
+    # after the copy to the destination is a failure of producing the cart like any other): the encoder's normal
+    # return is not accepted as "done" then either.  (The harness injects no fault into the final copy itself, the
+    # one window the property's statement leaves open.)
+    if _named_failure(case) or raised is not None:
         return ','.join(e for e in trace.split(',') if e != 'E')
     return trace
 
@@ -590,7 +600,7 @@ def monitor_requests(case, obs):
             for piece, o in zip(pieces, outs):
                 reqs.append('holds %s %d %s' % (fsx.hx(o), 1 if r['same_all'][o] else 0, ','.join(piece)))
         else:
-            reqs.append('holds %s %d %s' % (fsx.hx(obs['dest']), 1 if r['same'] else 0, _mon_trace(case, r['trace'])))
+            reqs.append('holds %s %d %s' % (fsx.hx(obs['dest']), 1 if r['same'] else 0, _mon_trace(case, r['trace'], r['raised'])))
     return reqs
 
 
@@ -602,7 +612,7 @@ def _bad_run(case, obs):
                 return r, False
         return (obs.get('runs') or [None])[0], True
     for r in obs.get('runs', []):
-        ev = _mon_trace(case, r['trace']).split(',')
+        ev = _mon_trace(case, r['trace'], r['raised']).split(',')
         done = 'E' in ev
         pre = ev[:ev.index('E')] if done else ev
         d = fsx.hx(obs['dest'])
@@ -733,6 +743,8 @@ def generate(tier, rng):
                     for at in ats:
                         cases.append(_sc('api', fmt, ex, 'small', {'kind': 'section-raises', 'section': s, 'at': at}, seed=seed))
                 cases.append(_sc('api', fmt, ex, 'small', {'kind': 'uncompressible'}, seed=seed))
+                for which in (0, 1, 2):
+                    cases.append(_sc('api', fmt, ex, 'small', {'kind': 'odd-code', 'which': which}, seed=seed))
                 if fmt == 'png':
                     cases.append(_sc('api', fmt, ex, 'small', {'kind': 'version', 'v': 256}, seed=seed))
                     cases.append(_sc('api', fmt, ex, 'small', {'kind': 'version', 'v': 1000}, seed=seed))
